@@ -143,15 +143,25 @@ def gate_sources():
 # build
 # --------------------------------------------------------------------------
 class BuildLock:
+    """Exclusive lock on the shared Coq build tree (generated facts, make, re-check of a props file).
+    Re-entrant inside one process (main thread only uses it)."""
+    _depth = 0
+    _f = None
+
     def __enter__(self):
-        os.makedirs(BUILD, exist_ok=True)
-        self.f = open(os.path.join(BUILD, ".lock"), "w")
-        fcntl.flock(self.f, fcntl.LOCK_EX)
+        if BuildLock._depth == 0:
+            os.makedirs(BUILD, exist_ok=True)
+            BuildLock._f = open(os.path.join(BUILD, ".lock"), "w")
+            fcntl.flock(BuildLock._f, fcntl.LOCK_EX)
+        BuildLock._depth += 1
         return self
 
     def __exit__(self, *a):
-        fcntl.flock(self.f, fcntl.LOCK_UN)
-        self.f.close()
+        BuildLock._depth -= 1
+        if BuildLock._depth == 0:
+            fcntl.flock(BuildLock._f, fcntl.LOCK_UN)
+            BuildLock._f.close()
+            BuildLock._f = None
 
 
 def ensure_makefile():
